@@ -296,3 +296,30 @@ func H_C14_value_starting_with_key() {
 	vAssert(k == key && v == vC14Value(key, val) && m == vC14Label("m"), "C14 value starting with its key: key, value and message recovered")
 	vReach("end")
 }
+
+// ---- round 4 ----
+
+// the label follows the message alone: a value (or option list) with Han characters and a message without,
+// and the other way round; value = one three-byte character (every well-formed one), message of 1..3 bytes
+func H_C14_rt_label_follows_message() {
+	key := vC14Keys[vndChoice("key", len(vC14Keys))]
+	val := vndStringN("val", 3)
+	vAssume(vValidUTF8(val))
+	vAssume(val[0] >= 0xE0)
+	msg := vndString("msg", 3)
+	vAssume(len(msg) > 0)
+	vAssume(vValidUTF8(msg))
+	vAssume(vNoByte(msg, ','))
+	vAssume(vNoByte(msg, '\''))
+	vAssume(vNoByte(msg, '|'))
+	text := GenValidKV(key, val, msg)
+	parts := ValidNamesSplit(NewRule().Set("F", text).Get("F"))
+	vAssert(len(parts) == 1, "C14 label: one rule in, one rule out")
+	if len(parts) != 1 {
+		return
+	}
+	k, v, m := ParseValidNameKV(parts[0])
+	vAssert(k == key && v == vC14Value(key, val), "C14 label: key and value recovered")
+	vAssert(m == vC14Label(msg), "C14 label: the message gains the label its own characters call for, whatever the value holds")
+	vReach("end")
+}
